@@ -3,6 +3,8 @@
   Only property theorems and their non-vacuity examples live here.
 -/
 import Bita.Proofs.CloneSound
+import Bita.Proofs.CloneNoJunk
+import Bita.Proofs.StepOrder
 
 namespace Bita.Props.C06
 open Bita Bita.Spec
@@ -13,7 +15,9 @@ in descriptor order, each once, whose key neither the scan of the prior output (
 used as seed) nor the scan of any seed found.  Nothing else is read from the archive.  The scan
 of the output covers the whole output from offset 0 for regular files and block devices alike
 (`Clone.run` scans `prior`; that the real scan starts at offset 0 is the extracted fact
-`Gen.fileSizeRewinds` plus the CLI-level correspondence). -/
+`Gen.fileSizeRewinds` plus the CLI-level correspondence).  The only escape is a collision of the
+truncated strong hash with a genuine source chunk; colliding junk chunks in the prior output are
+irrelevant (`Proofs.reorderOps_keep`). -/
 theorem fetch_exact (H : Bytes → Bytes) (hH : ∀ x, (H x).length = 64)
     (decomp : Nat → Bytes → Nat → Option Bytes) (features : List Nat)
     (readAt : Nat → Nat → Option Bytes) (readChunks : List (Nat × Nat) → List (Option Bytes))
@@ -28,9 +32,8 @@ theorem fetch_exact (H : Bytes → Bytes) (hH : ∀ x, (H x).length = 64)
                     ArchReq.readChunks ((a.chunks.filter (fun d =>
                       !(Proofs.foundKeys H a opts prior seeds).contains (hashTruncate d.checksum a.hashLength))).map
                       (fun d => (d.archiveOffset, d.archiveSize)))] ∨
-      Collision H a.hashLength cks ∨
-      (opts.seedOutput = true ∧ SelfCollision H a.hashLength a.config prior) :=
-  Proofs.fetch_exact H hH decomp features readAt readChunks opts prior seeds a src cks hinit hd hitems
+      Collision H a.hashLength cks :=
+  Proofs.fetch_exact_nojunk H hH decomp features readAt readChunks opts prior seeds a src cks hinit hd hitems
 
 /-- The cursor repair this property depends on must be in the source. -/
 theorem scan_starts_at_zero_fact : Gen.fileSizeRewinds = true := by decide
@@ -49,5 +52,13 @@ example :
       | .readChunks l => l.length
       | .readAt .. => 0) = some 3 := by
   decide +kernel
+
+/-- The step order of `clone_archive` that `Clone.run` transcribes (scan the output and reorder in
+place *before* any seed is used, fetch last, flush before resize), read from the source on every
+run: a reordering of the steps in the code breaks this theorem. -/
+theorem clone_steps_as_modelled :
+    Gen.cloneStepOrder = ["try_init", "banner", "pin", "open_output", "device_check", "scan_output", "reorder",
+                          "seed_stdin", "seed_files", "fetch", "flush", "resize", "verify_output"] :=
+  Proofs.clone_step_order_fact
 
 end Bita.Props.C06
